@@ -253,6 +253,10 @@ def top_level_exprs(g, r, d):
     out.append(("fn:name-boundary", ("fn", r.choice(["name", "local-name"]), [r.choice(PATHS + [("var", "e1")])])))
     out.append(("fn:number-boundary", ("fn", r.choice(["number", "floor", "ceiling", "round"]), [r.choice([("num", r.choice(NUMS)), ("lit", r.choice(LITS)), r.choice(PATHS)])])))
     out.append(("fn:string-length-boundary", ("fn", "string-length", [r.choice([("num", r.choice(NUMS)), ("lit", r.choice(LITS)), r.choice(PATHS), ("fn", "true", [])])])))
+    # run-time type errors: both the generic and every specialised entry point must fail
+    out.append(("error", r.choice([("fn", "count", [("num", "1")]), ("fn", "sum", [("lit", "a")]), ("fn", "name", [("num", "2")]),
+                                   ("union", [("num", "1"), r.choice(PATHS)]), ("path", ("group", ("num", "1")), [], [("child", ("name", None, None), [])]),
+                                   ("fn", "local-name", [("fn", "true", [])]), ("plus", ("fn", "count", [("lit", "x")]), ("num", "1"))])))
     res = []
     for cls, e in out:
         e = xpgen.fix_bare_root(e)
